@@ -222,8 +222,8 @@ def run_mp_shim(task):
                 if first_fail is not None and nsched > 50:
                     break
             cnt("interleavings_run", len(distinct_orders))
-            cnt("interleavings_total_of_exhaustive_cases" if exhaustive else "interleavings_space_of_sampled_cases",
-                total)
+            if exhaustive:
+                cnt("interleavings_total_of_exhaustive_cases", total)
             h = case_hash([case, op, ovar])
             res["hashes"].append(h)
             if len(lengths) >= 2 and sum(lengths) >= 3:
@@ -375,3 +375,158 @@ def aggregate(rep, jobs, prefix="mp."):
     else:
         rep.distinct = nontrivial
     rep.counters[prefix + "distinct_cases"] = len(hashes)
+
+
+def replay_mp(task):
+    """Re-runs one recorded multiprocessing case (shim schedule or real processes)."""
+    from framework.planes import mpshim
+
+    w = task["witness"]
+    case, op, ovar = w["mpcase"], w["op"], w.get("ovar")
+    seq, _ = sequential(case, op, ovar)
+    solvers = build_workers(case)
+    streams = mpshim.record_streams(solvers, op, ovar)
+    lengths = [len(s) for s in streams]
+    sched = w.get("schedule") or mpshim.corner_schedules(lengths)[0]
+    fails = []
+    for stats_mode in ("snapshot", "live"):
+        out = mpshim.run_reducer(solvers, streams, sched, op, ovar, stats_mode)
+        if out["error"]:
+            fails.append({"prop": "C11", "kind": "reducer_" + out["error"].split(":")[0], "detail": out["error"]})
+            continue
+        if out["leftover"]:
+            fails.append({"prop": "C11", "kind": "returned_before_all_workers_finished", "detail": str(out["leftover"])})
+        got = out["results"] if op == "solve" else out["result"]
+        fails += judge_mp(case, op, ovar, got, seq, streams, out.get("stats"), where="replay")
+    return {"fails": [f for f in fails if f["prop"] == task["prop"]]}
+
+
+# ------------------------------------------------------------------------------------------------ C18 fault grid
+FAULT_MODELS = [
+    {"doms": [[0, 3], [0, 1]], "idx": [0, 1], "off": [0, 0], "props": [[[0, 1], "dummy", []]]},
+    {"doms": [[0, 3], [0, 2]], "idx": [0, 1, 1], "off": [0, 0, 1], "props": [[[0, 1], "affine_leq", [1, 1, 3]]]},
+]
+MANNERS = ["sigkill", "exit1", "raise"]
+
+
+def fault_grid(tier):
+    """The complete fault space for the small models used: (model, k, op, worker, point, manner)."""
+    from framework.planes import mpshim
+
+    cases = []
+    for mi, model in enumerate(FAULT_MODELS):
+        for k in (1, 2, 3, 4):
+            for op, ovar in (("solve", None), ("minimize", 1), ("maximize", 0)):
+                case = {"model": model, "var": 0, "k": k, "cfg": {"calg": "bc", "vh": "first", "dh": "min"}}
+                lengths = [len(s) for s in mpshim.record_streams(build_workers(case), op, ovar)]
+                for w, ln in enumerate(lengths):
+                    points = [("at_start", None)]
+                    for j in range(ln - 1):
+                        points.append(("before_message", j))
+                        points.append(("after_message", j))
+                    points.append(("before_marker", None))
+                    for point, idx in points:
+                        for manner in MANNERS:
+                            cases.append({"mi": mi, "case": case, "op": op, "ovar": ovar, "lengths": lengths,
+                                          "fault": {"worker": w, "point": point, "index": idx, "manner": manner}})
+    return cases
+
+
+def run_mp_faults(task):
+    from framework.planes import mpreal, mpshim
+
+    import nucs.solvers.multiprocessing_solver as mps
+
+    t0 = time.time()
+    res = {"evals": 0, "fails": [], "fail_counts": {}, "samples": [], "counters": {}, "hashes": [], "mode": MODE,
+           "undecided": []}
+    mpreal.install()
+    grid = fault_grid(task.get("tier", "quick"))
+    mine = [c for i, c in enumerate(grid) if i % task["nchunks"] == task["chunk"]]
+    if task.get("limit"):
+        rnd = random.Random(task.get("seed", 0) * 7 + task["chunk"])
+        rnd.shuffle(mine)
+        mine = mine[: task["limit"]]
+    res["grid_size"] = len(grid)
+    deadline = t0 + task.get("deadline_s", 1e9)
+
+    def cnt(k, n=1):
+        res["counters"][k] = res["counters"].get(k, 0) + n
+
+    for c in mine:
+        if time.time() > deadline:
+            res["truncated"] = True
+            break
+        progress.mark({"fault_case": c})
+        case, op, ovar, fault = c["case"], c["op"], c["ovar"], c["fault"]
+        seq, _ = sequential(case, op, ovar)
+        solvers = build_workers(case)
+        # what the surviving workers alone would deliver
+        streams = mpshim.record_streams(build_workers(case), op, ovar)
+        surv = collections.Counter()
+        for w, st in enumerate(streams):
+            if w != fault["worker"]:
+                for m in st:
+                    if m[1] is not None:
+                        surv[tuple(int(x) for x in m[1])] += 1
+        mpreal.set_plan(fault=fault)
+        ms = mps.MultiprocessingSolver(solvers, log_level="ERROR")
+
+        def call(ms=ms, op=op, ovar=ovar):
+            if op == "solve":
+                return [tuple(int(x) for x in s) for s in ms.solve()]
+            r = ms.minimize(ovar) if op == "minimize" else ms.maximize(ovar)
+            return None if r is None else tuple(int(x) for x in r)
+
+        devnull = os.open(os.devnull, os.O_WRONLY)
+        saved_err = os.dup(2)
+        os.dup2(devnull, 2)  # children print tracebacks for the injected failures
+        try:
+            box = mpreal.call_with_oracle(call, wall_cap=task.get("wall_cap", 120), timed_patience=60.0)
+        finally:
+            os.dup2(saved_err, 2)
+            os.close(saved_err)
+            os.close(devnull)
+        mpreal.set_plan()
+        res["evals"] += 1
+        cnt("outcome." + box["how"])
+        cnt("manner.%s.%s" % (fault["manner"], box["how"]))
+        cnt("point.%s" % fault["point"])
+        cnt("op.%s" % op)
+        cnt("workers_%d" % len(solvers))
+        res["hashes"].append(case_hash([c["mi"], case["k"], op, fault]))
+        fails = []
+        if box["how"] == "deadlock":
+            fails.append({"prop": "C18", "kind": "caller_blocked_forever", "detail": box["detail"]})
+        elif box["how"] == "undecided":
+            res["undecided"].append({"fault": fault, "k": case["k"], "op": op, "detail": box["detail"]})
+        elif box["how"] == "returned":
+            got = box["value"]
+            if op == "solve":
+                g, e = collections.Counter(got), collections.Counter(seq)
+                if any(g[s] > e.get(s, 0) for s in g):
+                    fails.append({"prop": "C18", "kind": "returned_results_not_from_the_problem",
+                                  "detail": "got %r, sequential %r" % (sorted(g.items())[:5], len(seq))})
+                if any(g.get(s, 0) < n for s, n in surv.items()):
+                    fails.append({"prop": "C18", "kind": "returned_without_all_surviving_results",
+                                  "detail": "surviving workers deliver %d solutions, %d returned" % (
+                                      sum(surv.values()), len(got))})
+            else:
+                if got is not None and O.check_solution(case["model"], list(got)) is not None:
+                    fails.append({"prop": "C18", "kind": "returned_invalid_solution", "detail": repr(got)})
+                if got is None and surv:
+                    fails.append({"prop": "C18", "kind": "returned_none_although_survivors_found_solutions",
+                                  "detail": "surviving workers found %d improving solutions" % sum(surv.values())})
+        if len(res["samples"]) < 4 and res["evals"] % 9 == 1:
+            res["samples"].append({"k": case["k"], "op": op, "stream_lengths": c["lengths"], "fault": fault,
+                                   "outcome": box["how"], "exc": box.get("exc"), "wall": round(box.get("wall", 0), 2)})
+        for f in fails:
+            key = "%s|%s" % (f["kind"], fault["manner"])
+            n = res["fail_counts"].get(key, 0)
+            res["fail_counts"][key] = n + 1
+            if n < 4:
+                res["fails"].append(dict(f, fault_case={"model_index": c["mi"], "k": case["k"], "op": op,
+                                                        "ovar": ovar, "fault": fault, "stream_lengths": c["lengths"]},
+                                         mode=MODE))
+    res["wall"] = time.time() - t0
+    return res
